@@ -344,6 +344,51 @@ def run_o2(case):
                 else:
                     cnt["o2_timeouts_observed"] += 1
             await api.close_pool()
+            # bounced more than once: one HTTP/1.1 connection (max_connections=1), three callers that each hold it for 0.6 s
+            # stand in line before the victim (pool timeout 1.5). Every time the connection goes idle it is offered to all
+            # queued requests for the origin, the one queued first gets it, the others are turned away and queue again. The
+            # victim's time in the queue adds up over all of its waits: PoolTimeout at 1.5, not later, not never.
+            net, pool, api = build()
+            t_start = net.now()
+            res = {}
+
+            async def holder3(i):
+                await anyio.sleep(0.001 * i)
+                resp, cm = await api.open("GET", f"http://o.test/h{i}")
+                await anyio.sleep(0.6)
+                await api.chunks(resp)
+                await api.close(cm)
+
+            async def victim3():
+                await anyio.sleep(0.01)
+                try:
+                    await api.request("GET", "http://o.test/v", extensions={"timeout": {"pool": 1.5}})
+                    res["v"] = ("ok", net.now() - t_start)
+                except Exception as exc:  # noqa
+                    res["v"] = (type(exc).__name__, net.now() - t_start)
+
+            async def body3():
+                async with anyio.create_task_group() as tg:
+                    for i in range(3):
+                        tg.start_soon(holder3, i)
+                    tg.start_soon(victim3)
+                return True
+            await guarded(flavor, body3)
+            cnt["o2_histories"] += 1
+            cnt["o2_requeue_histories"] += 1
+            sigs.add(f"o2|{flavor}|bounced-twice")
+            kind, t_rel = res.get("v", ("never", -1))
+            # (which of the requests that are offered the idle connection takes it is the scheduler's choice: the victim may
+            # be served at 0.6 or 1.2 - what it may not do is wait beyond 1.51, or time out at any other instant)
+            served_in_time = kind == "ok" and t_rel <= 1.51 + 5e-3
+            if not served_in_time and (kind != "PoolTimeout" or abs(t_rel - 1.51) > 5e-3):
+                v("o2-requeued-twice:" + ("late-or-never" if kind != "PoolTimeout" or t_rel > 1.51 else "early"),
+                  f"request queued at 0.01 with pool timeout 1.5 behind three callers that hold the only connection for 0.6 s each "
+                  f"(so it is turned away and queued again at 0.6 and 1.2) ended {kind} at {t_rel}; expected PoolTimeout at 1.51",
+                  {"flavor": flavor})
+            elif kind == "PoolTimeout":
+                cnt["o2_timeouts_observed"] += 1
+            await api.close_pool()
             for name, S, waiters in ORDERINGS[:0]:
                 # P=0 with free capacity succeeds
                 net, pool, api = build()
